@@ -9,7 +9,7 @@ LEVEL = "exploration"
 ENGINE = "E0 pure"
 TECHNIQUE = ("Hypothesis over server sets (ids, permutation seeds given in the announcement or derived from the key), preferred-server lists, storage indexes, grid-manager keys and "
              "per-server certificate lists, clock values; several real StorageFarmBroker instances fed the same announcements in different insertion orders; differential "
-             "oracle: 5-line reference ordering (not preferred, SHA1(storage index + seed)) and the C33 reference predicate for upload permission")
+             "oracle: 5-line reference ordering (not preferred, SHA1(storage index + seed)) and the C33 reference predicate for upload permission; second family: immutable uploads and mutable creates/overwrites on the in-process grid by a client configured with a grid-manager key while certificates lapse and servers leave, oracle = no allocation to and no new share number on a server without a currently valid certificate")
 RULE = ("each case: 1-8 servers, each with an announcement (explicit permutation seed or none; one in three also announcing HTTP NURLs; force_foolscap on in a quarter of cases) and 0-3 certificates; 0-3 preferred servers; 0-2 configured grid-manager keys; "
         "2 brokers populated in different orders; 1-3 storage indexes; 1-3 clock values. Oracle: get_servers_for_psi(si) == servers sorted by (not preferred, "
         "SHA1(si+seed)), identical for both brokers; with for_upload=True exactly the servers whose reference certificate predicate holds at the current clock value, in the "
